@@ -34,8 +34,8 @@ def run(tier, seed):
         asts = small[:160]
     else:
         four = regexgen.enumerate_asts(4)
-        asts += [(a, False) for a in rng.sample(four, min(3000, len(four)))]
-    for i in range(160 if quick else 1500):
+        asts += [(a, False) for a in rng.sample(four, min(800, len(four)))]
+    for i in range(160 if quick else 500):
         binary = rng.random() < 0.3
         asts.append((regexgen.random_ast(rng, 0, binary), binary))
     # corner regexes that are always included, with EOF support: wildcards and inverted sets against end-of-input,
